@@ -145,6 +145,9 @@ func c18() *core.Check {
 			// (U+0100+d, U+0600+d, U+2000+d): a rune narrowed to a byte
 			us = append(us, gen.RangeUnits("bodyu", gen.Pow(6, 5), 8000, strconv.Itoa(fi))...)
 		}
+		// literals of 28-40 content bytes with a multi-byte character across the
+		// 31-byte value clip; closed literals followed by more literal-like syntax
+		us = append(us, gen.RangeUnits("clipu", uint64(len(litForms)), 1, "")...)
 		// bodies that start with a BOM or other multi-byte / high / NUL prefix
 		us = append(us, gen.RangeUnits("bodypre", uint64(len(litForms)*len(c18Prefixes)), 64, "")...)
 		return us
@@ -248,6 +251,23 @@ func c18() *core.Check {
 				for i := u.Lo; i < u.Hi; i++ {
 					buf = gen.Enum(al, 5, i, buf)
 					emitLit(fi, string(buf), int(i), emit)
+				}
+			case "clipu":
+				for i := u.Lo; i < u.Hi; i++ {
+					fi := int(i)
+					f := litForms[fi]
+					d := string([]byte{f.delim})
+					for _, ch := range []string{"\xc3\xa9", "\xe2\x82\xac", "\xf0\x9f\x98\x80", "\xa9", "\xc3"} {
+						for k := 26; k <= 33; k++ {
+							body := strings.Repeat("a", k) + ch + strings.Repeat("b", 6)
+							emitLit(fi, body+d+" x", k, emit)
+							emitLit(fi, body, k, emit)
+						}
+					}
+					for _, tail := range []string{" UESCAPE '!' or 1=1", " uescape '!", "UESCAPE'!'x", " UESCAPE ''", " escape '\\' y", " 'b' c", "'b'", " collate x", "::text", " " + d + "z" + d, d} {
+						emitLit(fi, "d!0061ta"+d+tail, 3, emit)
+						emitLit(fi, "a"+d+tail, 5, emit)
+					}
 				}
 			case "bodypre":
 				for i := u.Lo; i < u.Hi; i++ {
